@@ -851,7 +851,13 @@ pub fn trace_key(env: &Env, t: &Trace) -> (String, String) {
 /// Commit everything and place a checkpoint at HEAD.
 pub fn commit_all_and_checkpoint(env: &mut Env) -> Result<(), String> {
     env.git_init()?;
-    std::fs::write(env.path(".gitignore"), b"monorail-out/\n").map_err(|e| e.to_string())?;
+    // the out directory named by the installed configuration is not part of the repository
+    let out_dir = std::fs::read(env.config_path())
+        .ok()
+        .and_then(|b| serde_json::from_slice::<Value>(&b).ok())
+        .and_then(|v| v.get("out_dir").and_then(|o| o.as_str()).map(String::from))
+        .unwrap_or_else(|| "monorail-out".to_string());
+    std::fs::write(env.path(".gitignore"), format!("monorail-out/\n/{}/\n", out_dir)).map_err(|e| e.to_string())?;
     env.git_ok(&["add", "-A"])?;
     env.git_ok(&["commit", "-q", "-m", "init"])?;
     let o = env.mr(&["checkpoint", "update"]);
